@@ -19,6 +19,10 @@ CELL_ENUM_NAMES = {"interval": 10, "triangle": 20, "quadrilateral": 30, "tetrahe
                    "vertex": 60, "prism": 70, "pyramid": 80}
 
 
+class Rejected(Exception):
+    """FFCx raised a Python exception for this input (analysis / IR / code generation)."""
+
+
 def compile_objects(objs, options: dict | None = None, prefix: str = "vf", object_names=None):
     """Run the real compiler; returns (code tuple, suffixes)."""
     import ffcx.compiler
@@ -26,7 +30,10 @@ def compile_objects(objs, options: dict | None = None, prefix: str = "vf", objec
 
     opts = ffcx.options.get_options(dict(options or {}))
     logging.getLogger("ffcx").setLevel(logging.ERROR)
-    code, sfx = ffcx.compiler.compile_ufl_objects(list(objs), options=opts, object_names=object_names or {}, namespace=prefix)
+    try:
+        code, sfx = ffcx.compiler.compile_ufl_objects(list(objs), options=opts, object_names=object_names or {}, namespace=prefix)
+    except Exception as e:
+        raise Rejected(f"{type(e).__name__}: {str(e)[:200]}") from e
     return code, sfx
 
 
